@@ -337,3 +337,38 @@ PROPS["C15"]["model_files"] = list(dict.fromkeys(PROPS["C15"]["model_files"] + E
 PROPS["C15"]["rule"] = PROPS["C15"]["rule"] + (" || vmrun: the real Vm.Run on generated programs of 1-5 instructions, every 1st-3rd truncation and three single-byte corruptions of each, "
     "from independently drawn states (subsets of READIN/INMATCH/WAIT/LOADFAIL/TERMINATE/client flags, input absent/empty/selector, stack depth 0-3) with a resource answering every code fetch "
     "with empty code; observed: nil/error/panic, remaining code, flags, stack; corpus: truncated INCMP after a matched 'previous' on the first page")
+
+# C18's store side: the translation-then-default lookup of db.ToKey / Get on every backend (db/db.go), judged against the C10 reference map
+PROPS["C18"]["drivers"] = PROPS["C18"]["drivers"] + [{"name": "db", "n_quick": 120, "n_thorough": 900}]
+PROPS["C18"]["model_files"] = list(dict.fromkeys(PROPS["C18"]["model_files"] + DB_MODEL + ["corr/DbLangCorr.v"]))
+PROPS["C18"]["rule"] = PROPS["C18"]["rule"] + (" || db: the C10 storage histories (languages {nil,eng,nor,swa} over the language-scoped types, all four backends) with the monitor db_violations_c18: "
+                                               "every Get of a template / menu / static-value type returns the reference map's translation-else-default entry")
+
+# C06's flag field itself (state/flag.go): what CATCH and CROAK test, for flag indices of any size
+PROPS["C06"]["drivers"] = PROPS["C06"]["drivers"] + [{"name": "flags", "n_quick": 300, "n_thorough": 3000}]
+PROPS["C06"]["model_files"] = list(dict.fromkeys(PROPS["C06"]["model_files"] + ["corr/FlagCorr.v"]))
+PROPS["C06"]["rule"] = PROPS["C06"]["rule"] + (" || flags: 5 corpus + n generated sequences of 4-19 (thorough 4-43) SetFlag/ResetFlag/GetFlag/MatchFlag calls on the real state.State for flag counts "
+                                               "{0,1,4,8,9,56,120,248,249,300,600,1000,2032} (4 % beyond 2032), indices from a pool of low, last, first-outside, above 256 and their aliases mod 256; "
+                                               "model comparison per returned value and final flag bytes; monitor flag_violations against a reference set of indices")
+PROPS["C06"]["prop_files"] = PROPS["C06"]["prop_files"] + ["props/C06f.v"]
+PROPS["C06"]["files"] = list(dict.fromkeys(PROPS["C06"]["files"] + ["proofs/FlagFieldProofs.v", "props/C06f.v"]))
+
+# C18: the gettext resource (resource/gettext.go), agent symbols follow-up
+PROPS["C18"]["prop_files"] = PROPS["C18"]["prop_files"] + ["props/C18po.v"]
+PROPS["C18"]["files"] = list(dict.fromkeys(PROPS["C18"]["files"] + ["proofs/SymbolProofs.v", "props/C18.v", "proofs/PoProofs.v", "props/C18po.v"]))
+PROPS["C18"]["model_files"] = list(dict.fromkeys(PROPS["C18"]["model_files"] + ["model/PoModel.v", "corr/PoCorr.v"]))
+PROPS["C18"]["drivers"] = PROPS["C18"]["drivers"] + [{"name": "po", "n_quick": 100, "n_thorough": 800}]
+PROPS["C18"]["rule"] = PROPS["C18"]["rule"] + (
+    " || po: the real resource.NewPoResource(default, dir).WithLanguage(...) on generated locale directories: per case 6 ISO-639 languages shuffled, "
+    "one default, 0-2 registered (sometimes the default registered twice), files on disk for the default (9 in 10), most registered ones and (1 in 2) one "
+    "unregistered language; per language x-vise.po / x-vise_menu.po (7 in 8 each; those of non-default languages must be ignored) and default.po (7 in 8), "
+    "each in <lang>/ or <lang>/LC_MESSAGES/, header present 3 in 4, 4-9 symbols from a pool with spaces, quotes, newline, tab, backslash, %, non-ASCII, "
+    "leading/trailing blanks, the words msgid/msgstr; msgstr empty (1 in 7-8), identity, tagged, or from a pool; entries single-line or multi-line split at "
+    "arbitrary byte positions, comment/blank lines, indentation; default.po entries for sources, bare symbols and pool strings (45%); then GetTemplate and "
+    "GetMenu for up to 8 symbols (incl. one outside the tables and, 1 in 4, the empty symbol) x {no language in the context, default, every registered, "
+    "one unregistered (maybe with files), one unregistered without files}: returned string / error / panic compared with po_get, and judged by the C18 "
+    "monitor against the generated tables; 2 fixed corpus cases first (the repository's testdata/testlocale transcribed; a default language whose own "
+    "default.po rewrites a source string); non-trivial = some call returned something else than its symbol")
+PROPS["C18"]["assumptions"] = PROPS["C18"].get("assumptions", []) + [
+    "PoResource: locale directories named by the 3-letter code only (gotext's fallback to the 2-letter directory is not exercised), no msgctxt, no plural forms, no duplicate msgids",
+    "PoResource: the context value \"Language\" is a lang.Language, as the engine and the VM put it there"]
